@@ -45,7 +45,7 @@ class C02Monitor(Monitor):
         cname = type(inner).__name__
         mc = w.mc
         atoms = w.atoms
-        T = float(mc.context.temperature) if hasattr(mc.context, "temperature") else None
+        T = w.user.get("temperature")
         if T is None or not (T > 0):
             return None, cname, 0.0
         kT = T * kB
@@ -65,12 +65,12 @@ class C02Monitor(Monitor):
             return -((E_new + ke1) - (self.E_pre + ke0)) / kT, "hamiltonian", scale + ke0 + ke1
         if cname in ("IsobaricCriteria", "IsotensionCriteria"):
             V = float(abs(np.linalg.det(atoms.cell.array)))
-            P = float(mc.context.pressure)
+            P = float(w.user.get("pressure") or 0.0)
             ln = -(dE + P * (V - self.V_pre)) / kT + (len(atoms) + 1) * math.log(V / self.V_pre)
             scale += abs(P * V) + abs(P * self.V_pre)
             if cname == "IsobaricCriteria":
                 return ln, "isobaric", scale
-            S = np.asarray(mc.context.external_stress, dtype=float)
+            S = np.asarray(w.user["external_stress"], dtype=float)
             hydro = np.allclose(S, P * np.eye(3), rtol=0, atol=1e-300)
             if hydro:
                 return ln, "isotension_hydrostatic", scale
@@ -89,8 +89,8 @@ class C02Monitor(Monitor):
             if k == 0 or dn % k or abs(dn // k) != 1:
                 return None, "gc_multi", scale
             N = int(self.N_pre)
-            V = float(mc.context.accessible_volume)
-            mu = float(mc.context.chemical_potential)
+            V = float(w.user["accessible_volume"])
+            mu = float(w.user["chemical_potential"])
             lam3 = debroglie_cubed(float(w.template.get_masses().sum()), T)
             if dn > 0:
                 return math.log(V / (lam3 * (N + 1))) + (mu - dE) / kT, "gc_insertion", scale + abs(mu)
@@ -128,7 +128,7 @@ class C02Monitor(Monitor):
         if lnA is None or math.isnan(lnA):
             w.result.count("probe.unjudged_" + kind)
             return
-        T = float(w.mc.context.temperature)
+        T = float(w.user["temperature"])
         u = us[0] if len(us) == 1 else None
         if lnA >= 0:
             expected = True
@@ -178,7 +178,7 @@ class C02(HistoryCampaign):
         "calc_styles": ["caching", "stateless"],
         "scales": ["moderate", "extreme", "extreme"], "constraints": 0.1, "arrays": 0.2, "composites": 0.2, "extended": 0.1,
         "p_force": [0.0, 0.0, 0.3], "p_veto": [0.0, 0.1, 0.3], "preselect": 0.1, "steps_max": 10, "param_tape": 0.4,
-        "exch_composites": True, "triclinic": 0.6,
+        "exch_composites": True, "triclinic": 0.6, "accessible_volume": 0.4,
     }
     rule = ("one evaluation = one generated deployment; EVERY acceptance decision taken in it is refereed against "
             "ln u < ln A computed independently in log space (energies re-evaluated from the configurations, "
